@@ -66,7 +66,7 @@ func c17Load(sdl, backend string) (*ggql.Root, error) {
 // c17LoadStaged loads the documents one after the other and asks the full introspection query (both deprecation modes)
 // after each of them; with no staging it is c17Load.
 func c17LoadStaged(sdl string, loads []string, backend string) (*ggql.Root, error) {
-	if len(loads) < 2 {
+	if len(loads) == 0 {
 		return c17Load(sdl, backend)
 	}
 	root, err := c17Load(loads[0], backend)
@@ -619,7 +619,11 @@ func runC17(c *run.Ctx) {
 		// introspected after each load: whatever an early answer leaves behind must not show in the final one
 		var loads []string
 		if i%3 == 1 {
-			loads = c16Arrange(c.Rand(i*7+3), ms, 4).loads
+			arr := c16Arrange(c.Rand(i*7+3), ms, 4+(i/3)%2)
+			loads = arr.loads
+			if arr.final != nil {
+				ms = arr.final // same definitions; members listed in the order the loads merge them
+			}
 			c.Bucket("loading", fmt.Sprintf("staged-%d-loads-introspected-between", len(loads)))
 		} else {
 			c.Bucket("loading", "one-document")
